@@ -115,7 +115,7 @@ def _(self: Obj['rbql_csv.CSVRecordIterator']) -> Opt[Str]:
     local_types(rows_buffer=List[Str])
     loop_types(0, row=Opt[Str])
     invariant(0, reader_inv(self) and same(self.stream, old(self.stream)) and self.encoding == old(self.encoding) and self.comment_prefix == old(self.comment_prefix)
-              and self.NL >= 1 and is_fresh(rows_buffer) and len(rows_buffer) >= 1, 'config')
+              and self.NL >= 1 and self.NL >= old(self.NL) and is_fresh(rows_buffer) and len(rows_buffer) >= 1, 'config')
     invariant(0, str_join('\n', contents(rows_buffer)) + rfc_tail(rest(self)) == line1(old(rest(self)), old(self.NL) == 0, self.encoding) + rfc_tail(after_first_line(old(rest(self)))), 'record_text_so_far')
     invariant(0, rfc_after(rest(self)) == rfc_after(after_first_line(old(rest(self)))), 'remaining_content')
     loop_hint(0, implies(not is_none(row), str_join('\n', contents(rows_buffer)) == str_join('\n', at_iter_start(contents(rows_buffer))) + '\n' + opt_val(row)))
@@ -132,6 +132,94 @@ def _(self: Obj['rbql_csv.CSVRecordIterator']) -> Opt[Str]:
     ensures(implies(not is_none(result) and not (not is_none(self.comment_prefix) and line1(old(rest(self)), old(self.NL) == 0, self.encoding).startswith(opt_val(self.comment_prefix))) and odd_quotes(line1(old(rest(self)), old(self.NL) == 0, self.encoding)),
                     opt_val(result) == line1(old(rest(self)), old(self.NL) == 0, self.encoding) + rfc_tail(after_first_line(old(rest(self))))
                     and rest(self) == rfc_after(after_first_line(old(rest(self))))), 'multiline_record')
+    ensures(self.NL >= old(self.NL) and implies(not is_none(result), self.NL >= 1) and implies(is_none(result), self.NL == old(self.NL) and len(rest(self)) == 0), 'line_counter')
     ensures(reader_inv(self), 'inv')
     raises('rbql_engine.RbqlIOHandlingError', True, 'decode_error_is_io_handling_error')
     modifies(field(self, 'buffer'), field(self, 'detected_line_separator'), field(self, 'exhausted'), field(self, 'NL'), field(self, 'utf8_bom_removed'), self.stream)
+
+
+@pred
+def rec_iter_inv(self):
+    # configuration consistency of a CSV record iterator
+    return (reader_inv(self) and self.NL >= 0 and self.NR >= 0
+            and self.polymorphic_get_row == (mtag('get_row_rfc') if self.policy == 'quoted_rfc' else mtag('get_row_simple'))
+            and implies(self.policy != 'simple' and self.policy != 'whitespace' and self.policy != 'monocolumn', len(self.delim) == 1 and self.delim != '"')
+            and implies(self.policy == 'simple', len(self.delim) >= 1))
+
+
+@contract('rbql_csv.CSVRecordIterator.get_record', name='C12.record', props=['C12', 'C09', 'C14'], store_policy='none')
+def _(self: Obj['rbql_csv.CSVRecordIterator']) -> Opt[List[Str]]:
+    requires(rec_iter_inv(self), 'inv')
+    loop_types(0, line=Opt[Str])
+    invariant(0, rec_iter_inv(self) and same(self.stream, old(self.stream)) and self.encoding == old(self.encoding) and self.comment_prefix == old(self.comment_prefix)
+              and self.policy == old(self.policy) and self.delim == old(self.delim) and self.NR == old(self.NR) and not self.first_record_should_be_emitted
+              and not old(self.first_record_should_be_emitted) and same(self.fields_info, old(self.fields_info)) and self.first_defective_line == old(self.first_defective_line)
+              and (self.NL >= 1 or self.NL == old(self.NL)), 'config')
+    invariant(0, has_data_row(rest(self), self.policy == 'quoted_rfc', self.NL == 0, self.encoding, self.comment_prefix)
+              == has_data_row(old(rest(self)), old(self.policy) == 'quoted_rfc', old(self.NL) == 0, self.encoding, self.comment_prefix), 'same_next_record')
+    invariant(0, data_row(rest(self), self.policy == 'quoted_rfc', self.NL == 0, self.encoding, self.comment_prefix)
+              == data_row(old(rest(self)), old(self.policy) == 'quoted_rfc', old(self.NL) == 0, self.encoding, self.comment_prefix), 'same_next_record_text')
+    invariant(0, data_rest(rest(self), self.policy == 'quoted_rfc', self.NL == 0, self.encoding, self.comment_prefix)
+              == data_rest(old(rest(self)), old(self.policy) == 'quoted_rfc', old(self.NL) == 0, self.encoding, self.comment_prefix), 'same_remaining_content')
+    exit_hint(implies(not is_none(line) and not is_comment(opt_val(line), self.comment_prefix),
+                      at_iter_start(data_row(rest(self), self.policy == 'quoted_rfc', self.NL == 0, self.encoding, self.comment_prefix)) == opt_val(line)
+                      and at_iter_start(data_rest(rest(self), self.policy == 'quoted_rfc', self.NL == 0, self.encoding, self.comment_prefix)) == rest(self)), 'the_row_read_is_the_next_record', hide=['record_fields', 'record_warn'])
+    # a first record held back at construction (no header) is returned exactly once, first, and nothing is read
+    ensures(implies(old(self.first_record_should_be_emitted), same(result, old(self.first_record)) and not self.first_record_should_be_emitted
+                    and rest(self) == old(rest(self)) and self.NR == old(self.NR)), 'first_record_emitted_once')
+    # otherwise: the next record of the remaining content (comment lines skipped), split by the policy
+    ensures(implies(not old(self.first_record_should_be_emitted),
+                    is_none(result) == (not has_data_row(old(rest(self)), self.policy == 'quoted_rfc', old(self.NL) == 0, self.encoding, self.comment_prefix))), 'none_iff_no_more_records')
+    ensures(implies(not old(self.first_record_should_be_emitted) and not is_none(result),
+                    contents(result) == record_fields(data_row(old(rest(self)), self.policy == 'quoted_rfc', old(self.NL) == 0, self.encoding, self.comment_prefix), self.delim, self.policy)), 'next_record_of_remaining_content', hide=['record_fields', 'record_warn', 'data_row', 'data_rest', 'has_data_row'])
+    ensures(implies(not old(self.first_record_should_be_emitted) and not is_none(result),
+                    rest(self) == data_rest(old(rest(self)), self.policy == 'quoted_rfc', old(self.NL) == 0, self.encoding, self.comment_prefix)), 'remaining_content_after_the_record')
+    ensures(implies(not old(self.first_record_should_be_emitted) and not is_none(result), self.NR == old(self.NR) + 1 and is_fresh(result)), 'record_counter')
+    # C14: the first record of each field count is remembered
+    ensures(implies(not old(self.first_record_should_be_emitted) and not is_none(result),
+                    has_key(self.fields_info, len(result)) and self.fields_info[len(result)] == (old(self.fields_info)[len(result)] if has_key(old(self.fields_info), len(result)) else self.NR)), 'first_record_of_each_field_count')
+    ensures(implies(not old(self.first_record_should_be_emitted) and not is_none(result) and is_none(old(self.first_defective_line))
+                    and record_warn(data_row(old(rest(self)), self.policy == 'quoted_rfc', old(self.NL) == 0, self.encoding, self.comment_prefix), self.delim, self.policy),
+                    not is_none(self.first_defective_line) and opt_val(self.first_defective_line) == self.NL), 'first_defective_line_recorded')
+    ensures(rec_iter_inv(self), 'inv')
+    raises('rbql_engine.RbqlIOHandlingError', True, 'io_handling_error')
+    modifies(field(self, 'buffer'), field(self, 'detected_line_separator'), field(self, 'exhausted'), field(self, 'NL'), field(self, 'utf8_bom_removed'),
+             field(self, 'NR'), field(self, 'first_defective_line'), field(self, 'first_record_should_be_emitted'), self.stream, self.fields_info)
+
+
+# ---------------------------------------------------------------- header handling (C09)
+@trusted('rbql_csv.encode_input_stream', trusted='A-IO: wrapping a byte stream into a decoding text stream (io.TextIOWrapper / codecs reader); its unread content is the decoded content of the file')
+def _(stream: Obj['io.TextStream'], encoding: Opt[Str]) -> Obj['io.TextStream']:
+    ensures(allocated(result), 'a_text_stream')
+
+
+@contract('rbql_csv.CSVRecordIterator.__init__', name='C09.csv.init', props=['C09', 'C12'], store_policy='none')
+def _(self: Obj['rbql_csv.CSVRecordIterator'], stream: Obj['io.TextStream'], encoding: Opt[Str], delim: Str, policy: Str, has_header: Bool, comment_prefix: Opt[Str],
+      table_name: Str, variable_prefix: Str, chunk_size: Int, line_mode: Bool):
+    requires(chunk_size >= 1, 'positive_chunk_size')
+    requires(is_none(encoding) or opt_val(encoding) == 'utf-8' or opt_val(encoding) == 'latin-1', 'known_encoding')
+    requires(implies(policy != 'simple' and policy != 'whitespace' and policy != 'monocolumn', len(delim) == 1 and delim != '"'), 'single_char_delimiter_for_quoted_policies')
+    requires(implies(policy == 'simple', len(delim) >= 1), 'non_empty_delimiter')
+    ensures(rec_iter_inv(self) and self.has_header == has_header and self.policy == policy and self.delim == delim and self.encoding == encoding, 'configured')
+    ensures(self.comment_prefix == (comment_prefix if (not is_none(comment_prefix) and len(opt_val(comment_prefix)) > 0) else None), 'empty_comment_prefix_means_none')
+    # the first record is read ahead at construction: it is the header when has_header, otherwise it is handed out first, once
+    ensures(implies(not line_mode, self.first_record_should_be_emitted == (not has_header)), 'header_is_held_back_data_is_not')
+    ensures(implies(not line_mode and not is_none(self.first_record), self.NR == 1), 'first_record_counted')
+    raises('rbql_engine.RbqlIOHandlingError', True, 'io_handling_error')
+    raises('AssertionError', False, 'known_encoding')
+    modifies(self, anything())
+
+
+@contract('rbql_csv.CSVRecordIterator.handle_query_modifier', name='C09.csv.modifier', props=['C09'])
+def _(self: Obj['rbql_csv.CSVRecordIterator'], modifier: Str):
+    # WITH (header) / WITH (noheader) overrides the caller's flag: the first record becomes the header, or data again
+    ensures(implies(modifier == 'header' or modifier == 'headers', self.has_header and not self.first_record_should_be_emitted), 'with_header')
+    ensures(implies(modifier == 'noheader' or modifier == 'noheaders', not self.has_header and self.first_record_should_be_emitted), 'with_noheader')
+    ensures(implies(modifier != 'header' and modifier != 'headers' and modifier != 'noheader' and modifier != 'noheaders',
+                    self.has_header == old(self.has_header) and self.first_record_should_be_emitted == old(self.first_record_should_be_emitted)), 'other_modifiers_ignored')
+    modifies(field(self, 'has_header'), field(self, 'first_record_should_be_emitted'))
+
+
+@contract('rbql_csv.CSVRecordIterator.get_header', name='C09.csv.get_header', props=['C09', 'C07'])
+def _(self: Obj['rbql_csv.CSVRecordIterator']) -> Opt[List[Str]]:
+    ensures(implies(self.has_header, same(result, self.first_record)) and implies(not self.has_header, is_none(result)), 'first_record_iff_has_header')
